@@ -28,10 +28,11 @@ with `loadTable` (`route.Parse` of `Model/Parse.lean` followed by `route.NewTabl
 Registry well-formedness (`WellFormed`, explicit hypotheses — what a Consul registry provides):
 `byName`  the catalog answer for a name holds entries of that name;
 `tags`    the health checks of an instance carry the instance's tags (`ServiceTags`);
-`trimmed` a tag that is a routing tag after `strings.TrimSpace` has the prefix as it stands (no leading white
-          space before the prefix). `routecmd.build` trims a tag before it tests the prefix, `checksWithTagPrefix`
-          does not — for a tag like `" urlprefix-foo.com/x"` (leading blank) the two disagree and the instance is dropped by the filter
-          although `build` would emit its route; the hypothesis excludes exactly that.
+(Until round 4 a third hypothesis `trimmed` — no white space in front of the prefix of a routing tag — was needed:
+`routecmd.build` trims a tag before it tests the prefix, `checksWithTagPrefix` did not, so for a tag like
+`" urlprefix-foo.com/x"` the filter dropped the instance's checks although `build` would emit its route. Running that
+excluded point on the real code showed the property failing — defect D27, repaired in `/repo`; the model's
+`hasTagPrefix` trims and the hypothesis is gone.)
 -/
 namespace Fabio.Props.C01Compose
 open Fabio Fabio.Model.C01 Fabio.Model.C01Compose Fabio.Props.C01 Fabio.Lemmas.C01Compose
@@ -45,11 +46,11 @@ section
 variable (env : Env) (pf : ParseFloat) (cfg : Cfg) (st : List Str) (strict : Bool)
 variable (checks : List Check) (catalog : Str → List Instance)
 
-structure WellFormed : Prop where
+/-- (`cfg` is kept as a parameter although no field mentions it since the `trimmed` hypothesis was discharged in
+round 4: the statements of the theorems below and of `Props/System.lean` keep their shape) -/
+structure WellFormed (cfg : Cfg) (checks : List Check) (catalog : Str → List Instance) : Prop where
   byName : ∀ name, ∀ i ∈ catalog name, i.serviceName = name
   tags : ∀ c ∈ checks, ∀ name, ∀ i ∈ catalog name, c.node = i.node → c.serviceID = i.serviceID → c.tags = i.tags
-  trimmed : ∀ name, ∀ i ∈ catalog name, ∀ t ∈ i.tags, hasPrefix (trimSpace t) cfg.pfx = true →
-    cfg.pfx.isPrefixOf t = true
 
 /-- a catalog instance that the English rule admits: it is registered under its name, has a service check
 (carrying its service name) and is healthy under the configured rule, evaluated on the unfiltered checks -/
@@ -128,7 +129,7 @@ theorem tagged_of_intent (wf : WellFormed cfg checks catalog) (name : Str) (i : 
   unfold routeTags at htag
   obtain ⟨hmem, hpre⟩ := List.mem_filter.1 htag
   obtain ⟨t, ht, rfl⟩ := List.mem_map.1 hmem
-  have hraw := wf.trimmed name i hi t ht hpre
+  have hraw : cfg.pfx.isPrefixOf (trimSpace t) = true := hpre
   intro c hc h1 h2
   unfold hasTagPrefix
   rw [wf.tags c hc name i hi h1 h2, List.any_eq_true]
@@ -447,11 +448,6 @@ theorem wellFormedW : WellFormed cfgW checksW catalogW where
     have h : ∀ c ∈ checksW, ∀ i ∈ instsW, c.node = i.node → c.serviceID = i.serviceID → c.tags = i.tags := by decide
     intro c hc name i hi
     exact h c hc i (catalogW_sub name i hi).1
-  trimmed := by
-    have h : ∀ i ∈ instsW, ∀ t ∈ i.tags, hasPrefix (trimSpace t) cfgW.pfx = true → cfgW.pfx.isPrefixOf t = true := by
-      decide
-    intro name i hi
-    exact h i (catalogW_sub name i hi).1
 
 example : ∀ i ∈ instsW, ∀ it ∈ intents cfgW (regOf i), expressibleB envW pfW it = true := by decide
 
